@@ -395,7 +395,7 @@ func runC01(c *Ctx) {
 	// R01.7 composite detection offset
 	for _, ci := range callsIn(lk, "strings.Index") {
 		a := ci.Common().Args
-		if !vFieldLoad(routeEntryT, "PathPattern", nil)(a[0]) {
+		if !vFieldLoad(routeEntryT, "PathPattern", nil)(a[0]) && !vFieldLoadO(routeEntryT, "PathPattern")(a[0]) {
 			continue
 		}
 		lit := -1
